@@ -77,6 +77,17 @@ def r1_shifts(ctx):
         out[cls] = shifts
         ctx.check(mean_of == "xi" and shifts.get("xi") == -1, "C10.R1", f, nodes.get("xi", f.node), "xi := xi - mean(xi): log-accelerations made zero-mean",
                   f"the centring writes xi with coefficient {shifts.get('xi')} of mean({mean_of}): the log-accelerations are not made zero-mean")
+        # the centring does nothing else to the state: every other use of it is a read (a further effect - a cache taken back from a fork,
+        # a reset, a helper that writes - is not covered by the gauge argument of R2)
+        st_name = f.node.args.args[1].arg if len(f.node.args.args) > 1 else "state"
+        READS = {"get_tensor_value", "get_tensor_values", "__getitem__", "is_variable_set", "are_variables_set", "keys", "items", "values", "dag"}
+        for c in ast.walk(f.node):
+            if isinstance(c, ast.Call) and isinstance(c.func, ast.Attribute) and U(c.func.value) == st_name and c.func.attr not in READS | {"put"}:
+                ctx.violation("C10.R1", f, c, f"`{U(c)[:70]}`: the re-centring does more to the state than shifting xi and its compensation (`{c.func.attr}` is not a read): "
+                              "the values used afterwards are not the ones the gauge argument is about")
+            if isinstance(c, ast.Call) and any(isinstance(a_, ast.Name) and a_.id == st_name for a_ in list(c.args) + [k.value for k in c.keywords]) \
+                    and not (isinstance(c.func, ast.Attribute) and U(c.func.value) == st_name) and U(c.func) not in ("torch.mean",):
+                ctx.violation("C10.R1", f, c, f"`{U(c)[:70]}` hands the state to another function inside the re-centring: its effect is not covered by the gauge argument")
         others = {k: v for k, v in shifts.items() if k != "xi"}
         ctx.check(bool(others) and all(v == 1 for v in others.values()), "C10.R1", f, f.node, f"compensations {sorted(others)} shifted by +mean(xi)",
                   f"compensating shifts are {others} (each must be +1 x mean(xi))", construct="compensating shifts")
